@@ -6,7 +6,7 @@ CONSTANTS
   MaxDOpts = 2
   Multi = FALSE
   AllowFail = TRUE
-  CopyFix = TRUE
+  CopyFix = FALSE
   Gen = FALSE
 SPECIFICATION Spec
 INVARIANT RuleOK
